@@ -166,7 +166,11 @@ partial def step (st : St) (op : String) : St × String :=
   | ["K", name] =>
     match s.obj? name with
     | none => (st, Err.keyError.show)
-    | some (_, o) => (st, "/".intercalate (o.cache.map fun l => showSeqs (sortRun l.keys)))
+    | some (_, _) =>
+      -- how far the cache extends is not compared (a fast path of the implementation may answer without building a
+      -- level); every level of the MODEL's cache is right in every reachable state (C02.proc_invariant), so the model
+      -- answers `K!T` and the implementation side checks its own levels one by one (harness/c02.py)
+      (st, "K!T")
   | _ => (st, "bad-op")
 
 def runHist (ops : List String) : String :=
